@@ -19,6 +19,14 @@ impl<T: Copy> Vec<T> {
         while i < self.len { let mut j = i; while j > 0 && f(self.buf[j - 1].as_ref().unwrap(), self.buf[j].as_ref().unwrap()) == Ordering::Greater { self.buf.swap(j - 1, j); j -= 1; } i += 1; }
     }
     pub fn sort_by_key<K: Ord>(&mut self, mut f: impl FnMut(&T) -> K) { self.sort_by(|a, b| f(a).cmp(&f(b))) }
+    /// std documents sort_unstable_by / sort_unstable_by_key as NOT preserving the order of equal elements: the stand-in uses that
+    /// freedom (equal elements come out in REVERSE input order), so code that needs stability but calls these fails its obligation
+    /// at any length -- the real pdqsort only shows it beyond 20 elements
+    pub fn sort_unstable_by(&mut self, mut f: impl FnMut(&T, &T) -> Ordering) {
+        let mut i = 1;
+        while i < self.len { let mut j = i; while j > 0 && f(self.buf[j - 1].as_ref().unwrap(), self.buf[j].as_ref().unwrap()) != Ordering::Less { self.buf.swap(j - 1, j); j -= 1; } i += 1; }
+    }
+    pub fn sort_unstable_by_key<K: Ord>(&mut self, mut f: impl FnMut(&T) -> K) { self.sort_unstable_by(|a, b| f(a).cmp(&f(b))) }
     pub fn into_iter(self) -> VIter<T> { VIter { v: self, i: 0 } }
 }
 #[derive(Clone, Copy)]
